@@ -661,6 +661,64 @@ class _Normalise(ast.NodeTransformer):
             return n.args[1]
         return n
 
+    # [f(m.group()) for m in re.finditer(P, x)]  ->  [f(m) for m in re.findall(P, x)]  when the
+    # pattern P (a literal) has no capture group: findall then returns the whole matches
+    @staticmethod
+    def _groupless(pat_node):
+        if not (isinstance(pat_node, ast.Constant) and isinstance(pat_node.value, str)):
+            return False
+        try:
+            from . import e2_regex as e2
+            P = e2.parse(pat_node.value, version1=False)
+            return not any(isinstance(x, e2.Group) for x in e2.walk(P.root))
+        except Exception:
+            return False
+
+    def _finditer_comp(self, n):
+        if len(n.generators) != 1:
+            return n
+        g = n.generators[0]
+        it = g.iter
+        if not (isinstance(it, ast.Call) and isinstance(it.func, ast.Attribute) and it.func.attr == "finditer"
+                and isinstance(it.func.value, ast.Name) and it.func.value.id in ("re", "regex")
+                and len(it.args) == 2 and not it.keywords and isinstance(g.target, ast.Name)
+                and self._groupless(it.args[0])):
+            return n
+        var = g.target.id
+        uses = []
+        whole = []
+        parts = [n.elt] if not isinstance(n, ast.DictComp) else [n.key, n.value]
+        for root in parts + list(g.ifs):
+            for x in ast.walk(root):
+                if isinstance(x, ast.Name) and x.id == var:
+                    uses.append(x)
+                if isinstance(x, ast.Call) and isinstance(x.func, ast.Attribute) and x.func.attr == "group" \
+                        and isinstance(x.func.value, ast.Name) and x.func.value.id == var and not x.keywords \
+                        and (not x.args or (len(x.args) == 1 and isinstance(x.args[0], ast.Constant)
+                                            and x.args[0].value == 0)):
+                    whole.append(x)
+        if not uses or len(uses) != len(whole):
+            return n
+
+        class _R(ast.NodeTransformer):
+            def visit_Call(self, c):
+                if any(c is w for w in whole):
+                    return ast.copy_location(ast.Name(id=var, ctx=ast.Load()), c)
+                return self.generic_visit(c)
+        if isinstance(n, ast.DictComp):
+            n.key, n.value = _R().visit(n.key), _R().visit(n.value)
+        else:
+            n.elt = _R().visit(n.elt)
+        g.ifs = [_R().visit(i_) for i_ in g.ifs]
+        it.func.attr = "findall"
+        return n
+
+    def visit_ListComp(self, n):
+        return self._finditer_comp(self.generic_visit(n))
+
+    def visit_GeneratorExp(self, n):
+        return self._finditer_comp(self.generic_visit(n))
+
     @staticmethod
     def _neg(t):
         if isinstance(t, ast.UnaryOp) and isinstance(t.op, ast.Not):
@@ -736,10 +794,257 @@ class _Normalise(ast.NodeTransformer):
         return n
 
 
-def inlined_module(mod):
-    """A copy of *mod* (an e1 Mod) in which every function has its helper calls inlined."""
+def _top_defs(tree):
+    """name -> defining statement, for module-level functions and single-name assignments"""
+    out = {}
+    for st in tree.body:
+        if isinstance(st, (ast.FunctionDef, ast.AsyncFunctionDef)):
+            out[st.name] = st
+        elif isinstance(st, ast.Assign) and len(st.targets) == 1 and isinstance(st.targets[0], ast.Name):
+            out.setdefault(st.targets[0].id, st)
+        elif isinstance(st, ast.AnnAssign) and isinstance(st.target, ast.Name) and st.value is not None:
+            out.setdefault(st.target.id, st)
+    return out
+
+
+def _bound_names(tree):
+    names = set()
+    for st in tree.body:
+        if isinstance(st, (ast.FunctionDef, ast.AsyncFunctionDef, ast.ClassDef)):
+            names.add(st.name)
+        elif isinstance(st, (ast.Import, ast.ImportFrom)):
+            for a in st.names:
+                names.add((a.asname or a.name).split(".")[0])
+        else:
+            for n in ast.walk(st):
+                if isinstance(n, ast.Name) and isinstance(n.ctx, ast.Store):
+                    names.add(n.id)
+    return names
+
+
+def grafted_tree(mod, model, depth=0):
+    """A clone of the module's tree in which functions and module-level values imported from another
+    module *of the package* are replaced by copies of their definitions (under the imported name),
+    together with the module-level definitions of that module they refer to.  Code that a maintainer
+    moves to a new module and imports back is thereby read where it is used; classes are not
+    grafted (they are resolved through the model's environment)."""
+    tree = clone(mod.tree)
+    if model is None or depth > 2:
+        return tree
+    bound = _bound_names(tree)
+    body = []
+    for st in tree.body:
+        if not isinstance(st, ast.ImportFrom) or any(a.name == "*" for a in st.names):
+            body.append(st)
+            continue
+        full = model.resolve_import(mod, st)
+        if full not in model.mods or full == mod.name:
+            body.append(st)
+            continue
+        src = model.mod(full)
+        src_tree = grafted_tree(src, model, depth + 1)
+        defs = _top_defs(src_tree)
+        keep = []
+        grafts = []
+        done = set()
+
+        def graft(name, as_name):
+            d = defs.get(name)
+            if d is None or (name, as_name) in done:
+                return False
+            done.add((name, as_name))
+            node = clone(d)
+            origin = getattr(d, "_origin_rel", None) or src.rel
+            for x in ast.walk(node):
+                x._origin_rel = origin
+            node._origin_name = getattr(d, "_origin_name", None) or name
+            if isinstance(node, (ast.FunctionDef, ast.AsyncFunctionDef)):
+                node.name = as_name
+            elif isinstance(node, ast.Assign):
+                node.targets[0].id = as_name
+            else:
+                node.target.id = as_name
+            # what the definition refers to in its own module comes along (under its own name),
+            # unless the importing module binds that name itself
+            for x in ast.walk(d):
+                if isinstance(x, ast.Name) and isinstance(x.ctx, ast.Load) and x.id in defs \
+                        and x.id != name and x.id not in bound:
+                    if graft(x.id, x.id):
+                        bound.add(x.id)
+            grafts.append(node)
+            return True
+        for a in st.names:
+            if not graft(a.name, a.asname or a.name):
+                keep.append(a)
+        if keep:
+            st.names = keep
+            body.append(st)
+        body.extend(grafts)
+    tree.body = body
+    return tree
+
+
+def _is_cm_deco(d):
+    return (isinstance(d, ast.Name) and d.id == "contextmanager") or \
+        (isinstance(d, ast.Attribute) and d.attr == "contextmanager")
+
+
+class _InlineContextManagers(ast.NodeTransformer):
+    """with cm(args): BODY, cm a same-module @contextmanager generator with exactly one bare
+    'yield' statement and no return  ->  the generator's body with the yield replaced by BODY
+    (parameters bound by assignments, the generator's own names renamed apart).  That is what
+    contextlib runs, as long as BODY does not return/break out of the with (then the code after
+    the yield would be skipped differently): such with-statements are left alone."""
+
+    def __init__(self, funcs):
+        self.funcs = funcs
+        self.n = 0
+
+    def visit_With(self, w):
+        w = self.generic_visit(w)
+        if len(w.items) != 1 or w.items[0].optional_vars is not None:
+            return w
+        call = w.items[0].context_expr
+        if not (isinstance(call, ast.Call) and isinstance(call.func, ast.Name)):
+            return w
+        g = self.funcs.get(call.func.id)
+        if g is None or not any(_is_cm_deco(d) for d in g.decorator_list) or len(g.decorator_list) != 1:
+            return w
+        own = []
+        stack = list(g.body)
+        while stack:
+            x = stack.pop()
+            if isinstance(x, (ast.FunctionDef, ast.AsyncFunctionDef, ast.Lambda, ast.ClassDef)):
+                continue
+            own.append(x)
+            stack.extend(ast.iter_child_nodes(x))
+        yields = [x for x in own if isinstance(x, (ast.Yield, ast.YieldFrom))]
+        if len(yields) != 1 or not isinstance(yields[0], ast.Yield) or yields[0].value is not None:
+            return w
+        if any(isinstance(x, ast.Return) for x in own):
+            return w
+        ystmt = [x for x in own if isinstance(x, ast.Expr) and x.value is yields[0]]
+        if len(ystmt) != 1:
+            return w
+        # the body must leave the with-statement only by falling off its end or by an exception
+        def leaves(stmts, in_loop):
+            for x in stmts:
+                if isinstance(x, ast.Return):
+                    return True
+                if isinstance(x, (ast.Break, ast.Continue)) and not in_loop:
+                    return True
+                if isinstance(x, (ast.FunctionDef, ast.AsyncFunctionDef, ast.ClassDef)):
+                    continue
+                inner_loop = in_loop or isinstance(x, (ast.For, ast.While))
+                for fld in ("body", "orelse", "finalbody"):
+                    sub = getattr(x, fld, None)
+                    if isinstance(sub, list) and sub and isinstance(sub[0], ast.stmt):
+                        if leaves(sub, inner_loop if fld == "body" else in_loop):
+                            return True
+                for h in getattr(x, "handlers", []) or []:
+                    if leaves(h.body, in_loop):
+                        return True
+            return False
+        if leaves(w.body, False):
+            return w
+        a = g.args
+        if a.vararg or a.kwarg or a.kwonlyargs or a.posonlyargs or any(isinstance(x, ast.Starred) for x in call.args) \
+                or any(k.arg is None for k in call.keywords):
+            return w
+        names = [p.arg for p in a.args]
+        bound = {}
+        for nm, v in zip(names, call.args):
+            bound[nm] = v
+        for k in call.keywords:
+            if k.arg not in names or k.arg in bound:
+                return w
+            bound[k.arg] = k.value
+        defaults = dict(zip(names[len(names) - len(a.defaults):], a.defaults))
+        for nm in names:
+            if nm not in bound:
+                if nm not in defaults:
+                    return w
+                bound[nm] = defaults[nm]
+        self.n += 1
+        suffix = "__cm{}".format(self.n)
+        local = set(names)
+        for x in own:
+            if isinstance(x, ast.Name) and isinstance(x.ctx, ast.Store):
+                local.add(x.id)
+            if isinstance(x, ast.ExceptHandler) and x.name:
+                local.add(x.name)
+
+        class _Ren(ast.NodeTransformer):
+            def visit_Name(self, n_):
+                if n_.id in local:
+                    return ast.copy_location(ast.Name(id=n_.id + suffix, ctx=n_.ctx), n_)
+                return n_
+
+            def visit_ExceptHandler(self, h):
+                h = self.generic_visit(h)
+                if h.name in local:
+                    h.name = h.name + suffix
+                return h
+        body = [_Ren().visit(clone(st)) for st in g.body
+                if not (isinstance(st, ast.Expr) and isinstance(st.value, ast.Constant))]
+        with_body = w.body
+
+        class _Put(ast.NodeTransformer):
+            def visit_Expr(self, e):
+                if isinstance(e.value, ast.Yield) and e.value.value is None:
+                    return with_body
+                return e
+        body = [_Put().visit(st) for st in body]
+        flat = []
+        for st in body:
+            flat.extend(st if isinstance(st, list) else [st])
+        pre = [ast.copy_location(ast.Assign(targets=[ast.Name(id=nm + suffix, ctx=ast.Store())], value=bound[nm]), w)
+               for nm in names]
+        out = pre + flat
+        for st in out:
+            ast.fix_missing_locations(st)
+        return out
+
+
+def inlined_module(mod, model=None):
+    """A copy of *mod* (an e1 Mod) in which every function has its helper calls inlined; with a
+    *model*, definitions imported from other modules of the package are grafted in first."""
+    if model is not None:
+        base = copy.copy(mod)
+        base.tree = grafted_tree(mod, model)
+        ast.fix_missing_locations(base.tree)
+        for node in ast.walk(base.tree):
+            for ch in ast.iter_child_nodes(node):
+                ch._parent = node
+        base.funcs = {}
+        base.classes = {}
+        base._index()
+        mod = base
+    if any(any(_is_cm_deco(d) for d in f_.decorator_list) for f_ in mod.funcs.values()):
+        base = copy.copy(mod)
+        t2 = clone(mod.tree)
+        for a_, b_ in zip(ast.walk(mod.tree), ast.walk(t2)):
+            if hasattr(a_, "_origin_rel"):
+                b_._origin_rel = a_._origin_rel
+            if hasattr(a_, "_origin_name"):
+                b_._origin_name = a_._origin_name
+        top = {st.name: st for st in t2.body if isinstance(st, ast.FunctionDef)}
+        base.tree = _InlineContextManagers(top).visit(t2)
+        ast.fix_missing_locations(base.tree)
+        for node in ast.walk(base.tree):
+            for ch in ast.iter_child_nodes(node):
+                ch._parent = node
+        base.funcs = {}
+        base.classes = {}
+        base._index()
+        mod = base
     new = copy.copy(mod)
     new.tree = clone(mod.tree)
+    for a_, b_ in zip(ast.walk(mod.tree), ast.walk(new.tree)):
+        if hasattr(a_, "_origin_rel"):
+            b_._origin_rel = a_._origin_rel
+        if hasattr(a_, "_origin_name"):
+            b_._origin_name = a_._origin_name
     new.funcs = {}
     new.classes = {}
     new._index()
